@@ -547,9 +547,12 @@ func init() {
 		}
 		items := itemsOracle(s, a["base"], a["item"], a["src"])
 		liveDone := s.startLive(a)
+		// slow=FILE:ms : one source file is kept locked for a while, so that its reader finishes last
+		slowDone := s.holdLock(a.str("slow", ""))
 		t0 := time.Now().Unix()
 		err, panicked := s.execute(a, c, nil)
 		t1 := time.Now().Unix()
+		slowDone()
 		recs, nows := parseOutput(readOut())
 		liveAt := ""
 		if a["live"] != "" {
@@ -578,9 +581,12 @@ func init() {
 			ArchiveID: int(a.num("archive", -1)), TextOut: to,
 		}
 		items := itemsOracle(s, a["base"], a["item"], a["src"])
+		// slow=FILE:ms : one source file is kept locked for a while, so that its reader finishes last
+		slowDone := s.holdLock(a.str("slow", ""))
 		t0 := time.Now().Unix()
 		err, panicked := s.execute(a, c, nil)
 		t1 := time.Now().Unix()
+		slowDone()
 		recs, nows := parseOutput(readOut())
 		s.echo(fmt.Sprintf("%s nows=%s items=%s clock=%d,%d", strings.Join(tk, " "), csvOrDash(nows), items, t0, t1))
 		s.emit("clisumdiff", statusOf(err, panicked), recs)
